@@ -393,6 +393,231 @@ def logger_time():
     return res
 
 
+TH_CC, CT_H, CT_CC = "muduo/base/Thread.cc", "muduo/base/CurrentThread.h", "muduo/base/CurrentThread.cc"
+
+
+def is_zero_test(c, var):
+    c = strip(c)
+    if c.get("kind") == "CallExpr":            # __builtin_expect(t_cachedTid == 0, 0)
+        args = kids(c)[1:]
+        if mentions(kids(c)[0], decl="__builtin_expect") and len(args) == 2 and cxxast.const_eval(args[1]) == 0:
+            return is_zero_test(args[0], var)
+        return False
+    if c.get("kind") != "BinaryOperator" or c.get("opcode") != "==":
+        return False
+    a, b = [strip(x) for x in kids(c)]
+    return a.get("kind") == "DeclRefExpr" and a["referencedDecl"]["name"] == var and b.get("kind") == "IntegerLiteral" and int(b["value"]) == 0
+
+
+def thread_tid():
+    """CurrentThread's tid cache: cacheTid(), tid(), the atfork child handler afterFork() as a list of
+    steps, its registration in ThreadNameInitializer's constructor (+ the static object), initial values."""
+    res = {}
+    # cacheTid(): if (t_cachedTid == 0) { t_cachedTid = gettid(); t_tidStringLength = snprintf(t_tidString, sizeof t_tidString, FMT, t_cachedTid); }
+    ms = methods_named(TH_CC, "muduo::CurrentThread::cacheTid")
+    if len(ms) != 1:
+        raise Untranslatable("cacheTid: %d bodies" % len(ms))
+    sts = kids(cxxast.body(ms[0]))
+    ok = len(sts) == 1 and sts[0].get("kind") == "IfStmt" and len(kids(sts[0])) == 2 and is_zero_test(kids(sts[0])[0], "t_cachedTid")
+    fmt, size_ok = None, False
+    if ok:
+        inner = kids(kids(sts[0])[1])
+        ok = len(inner) == 2
+        if ok:
+            a0, a1 = [strip(x) for x in inner]
+            ok = (a0.get("kind") == "BinaryOperator" and a0.get("opcode") == "=" and mentions(kids(a0)[0], decl="t_cachedTid")
+                  and mentions(kids(a0)[1], decl="gettid") and not mentions(kids(a0)[1], decl="t_cachedTid"))
+            ok = ok and a1.get("kind") == "BinaryOperator" and a1.get("opcode") == "=" and mentions(kids(a1)[0], decl="t_tidStringLength")
+            if ok:
+                calls = [n for n in walk(kids(a1)[1]) if n.get("kind") == "CallExpr" and mentions(kids(n)[0], decl="snprintf")]
+                ok = len(calls) == 1
+                if ok:
+                    ca = kids(calls[0])
+                    ok = (len(ca) == 5 and mentions(ca[1], decl="t_tidString") and mentions(ca[2], decl="t_tidString")
+                          and any(x.get("kind") == "UnaryExprOrTypeTraitExpr" for x in walk(ca[2])) and mentions(ca[4], decl="t_cachedTid"))
+                    f = [unquote(x["value"]) for x in walk(ca[3]) if x.get("kind") == "StringLiteral"]
+                    fmt = f[0] if len(f) == 1 else None
+    if fmt is None:
+        raise Untranslatable("cacheTid: no snprintf(t_tidString, sizeof t_tidString, <literal>, t_cachedTid)")
+    if re.sub(r"%0?[1-9]?d", "", bytes(fmt).decode("latin1")).count("%"):
+        raise Untranslatable("cacheTid format")
+    res["cacheTid_ok"], res["tid_fmt"] = bool(ok), fmt
+    # tid(): if (__builtin_expect(t_cachedTid == 0, 0)) cacheTid(); return t_cachedTid;
+    ms = methods_named(CT_H, "muduo::CurrentThread::tid")
+    if len(ms) != 1:
+        raise Untranslatable("CurrentThread::tid: %d bodies" % len(ms))
+    sts = kids(cxxast.body(ms[0]))
+    res["tid_ok"] = bool(len(sts) == 2 and sts[0].get("kind") == "IfStmt" and len(kids(sts[0])) == 2
+                         and is_zero_test(kids(sts[0])[0], "t_cachedTid") and mentions(kids(sts[0])[1], decl="cacheTid")
+                         and sts[1].get("kind") == "ReturnStmt" and mentions(sts[1], decl="t_cachedTid"))
+    # afterFork(): a list of steps
+    ms = methods_named(TH_CC, "muduo::detail::afterFork")
+    if len(ms) != 1:
+        raise Untranslatable("afterFork: %d bodies" % len(ms))
+    steps = []
+    for st in kids(cxxast.body(ms[0])):
+        e = strip(st)
+        if e.get("kind") == "BinaryOperator" and e.get("opcode") == "=" and strip(kids(e)[0]).get("kind") == "DeclRefExpr":
+            lhs = strip(kids(e)[0])["referencedDecl"]["name"]
+            rhs = strip(kids(e)[1])
+            if lhs == "t_cachedTid":
+                if rhs.get("kind") == "IntegerLiteral" and int(rhs["value"]) == 0:
+                    steps.append("AfZeroTid")
+                elif mentions(rhs, decl="gettid") or mentions(rhs, decl="syscall"):
+                    steps.append("AfSetTid")
+                else:
+                    raise Untranslatable("afterFork: t_cachedTid = <unknown>")
+            elif lhs in ("t_tidString", "t_tidStringLength"):
+                raise Untranslatable("afterFork writes " + lhs)
+            else:
+                steps.append("AfOther")
+        elif e.get("kind") == "CallExpr" and strip(kids(e)[0]).get("kind") == "DeclRefExpr":
+            callee = strip(kids(e)[0])["referencedDecl"]["name"]
+            if callee == "tid":
+                steps.append("AfCallTid")
+            elif callee == "cacheTid":
+                steps.append("AfCacheTid")
+            elif mentions(e, decl="t_cachedTid") or mentions(e, decl="t_tidString") or mentions(e, decl="t_tidStringLength"):
+                raise Untranslatable("afterFork: call %s touches the tid cache" % callee)
+            else:
+                steps.append("AfOther")
+        elif any(mentions(e, decl=v) for v in ("t_cachedTid", "t_tidString", "t_tidStringLength")):
+            raise Untranslatable("afterFork: statement %s touches the tid cache" % e.get("kind"))
+        else:
+            steps.append("AfOther")
+    res["af_steps"] = steps
+    # ThreadNameInitializer(): pthread_atfork(NULL, NULL, &afterFork);  + a namespace-scope object of the class
+    reg = False
+    for d in cxxast.dump(TH_CC, "muduo::detail::ThreadNameInitializer"):
+        for n in walk(d):
+            if n.get("kind") == "CXXConstructorDecl" and any(c.get("kind") == "CompoundStmt" for c in kids(n)):
+                for c in walk(n):
+                    if c.get("kind") == "CallExpr" and mentions(kids(c)[0], decl="pthread_atfork"):
+                        a = kids(c)[1:]
+                        if len(a) == 3 and mentions(a[2], decl="afterFork") and not mentions(a[0], decl="afterFork") and not mentions(a[1], decl="afterFork"):
+                            reg = True
+    obj = False
+    for d in cxxast.dump(TH_CC, "muduo::detail::init"):
+        for v in cxxast.find(d, "VarDecl", "init"):
+            if "ThreadNameInitializer" in (v.get("type") or {}).get("qualType", "") and v.get("storageClass") != "extern":
+                obj = True
+    res["atfork"] = reg and obj
+    res["tid_string_size"] = array_size(CT_CC, "muduo::CurrentThread::t_tidString")
+    for nm in ("t_cachedTid", "t_tidStringLength"):
+        v = var_decl(CT_CC, "muduo::CurrentThread::" + nm)
+        res[nm] = cxxast.const_eval(kids(v)[0])
+    return res
+
+
+def stream_ops():
+    """LogStream.h: what operator<<(bool / char / const char* / string / StringPiece / Buffer) and operator<<(LogStream&, Fmt)
+    append; Fmt's buffer, snprintf and length assert; Logging.cc strerror_tl."""
+    res = {}
+
+    def op(ty):
+        ms = methods_named(LS_H, "muduo::LogStream::operator<<", lambda n: (n.get("type") or {}).get("qualType", "").endswith("(%s)" % ty))
+        if len(ms) != 1:
+            raise Untranslatable("operator<<(%s): %d bodies" % (ty, len(ms)))
+        return ms[0]
+
+    def appends(n):
+        return [c for c in walk(n) if c.get("kind") == "CXXMemberCallExpr" and mentions(kids(c)[0], member="append")]
+    b = op("bool")
+    ap = appends(b)
+    conds = [c for c in walk(b) if c.get("kind") == "ConditionalOperator"]
+    if len(ap) != 1 or len(conds) != 1 or not mentions(kids(conds[0])[0], decl="v"):
+        raise Untranslatable("operator<<(bool)")
+    lits = [unquote(x["value"]) for x in walk(conds[0]) if x.get("kind") == "StringLiteral"]
+    ln = cxxast.const_eval(kids(ap[0])[2])
+    res["bool"] = (lits[0][:ln], lits[1][:ln])
+    c = op("char")
+    ap = appends(c)
+    res["char_ok"] = bool(len(ap) == 1 and mentions(kids(ap[0])[1], decl="v") and cxxast.const_eval(kids(ap[0])[2]) == 1)
+    cs = op("const char *")
+    ifs = [x for x in walk(cs) if x.get("kind") == "IfStmt"]
+    if len(ifs) != 1 or len(kids(ifs[0])) != 3:
+        raise Untranslatable("operator<<(const char*)")
+    cond = strip(kids(ifs[0])[0])
+    a_then, a_else = appends(kids(ifs[0])[1]), appends(kids(ifs[0])[2])
+    if not (cond.get("kind") == "DeclRefExpr" and cond["referencedDecl"]["name"] == "str") or len(a_then) != 1 or len(a_else) != 1:
+        raise Untranslatable("operator<<(const char*): if (str) append / else append")
+    res["cstr_ok"] = bool(mentions(kids(a_then[0])[1], decl="str") and mentions(kids(a_then[0])[2], decl="strlen") and mentions(kids(a_then[0])[2], decl="str"))
+    nl = [unquote(x["value"]) for x in walk(kids(a_else[0])[1]) if x.get("kind") == "StringLiteral"]
+    res["null"] = nl[0][:cxxast.const_eval(kids(a_else[0])[2])]
+    oks = []
+    def op_any(*tys):
+        for ty in tys:
+            try:
+                return op(ty)
+            except Untranslatable:
+                pass
+        raise Untranslatable("operator<<(%s)" % tys[0])
+    for tys, d, sz in ((("const std::string &", "const muduo::string &", "const string &"), "c_str", "size"),
+                       (("const muduo::StringPiece &", "const StringPiece &"), "data", "size")):
+        m = op_any(*tys)
+        ap = appends(m)
+        oks.append(len(ap) == 1 and mentions(kids(ap[0])[1], member=d) and mentions(kids(ap[0])[2], member=sz) and mentions(kids(ap[0])[1], decl="v")
+                   and mentions(kids(ap[0])[2], decl="v"))
+    m = op_any("const muduo::LogStream::Buffer &", "const Buffer &")
+    oks.append(mentions(m, member="toStringPiece") and not appends(m))
+    fo = [n for n in methods_named(LS_H, "muduo::operator<<") if "Fmt" in (n.get("type") or {}).get("qualType", "")]
+    if len(fo) != 1:
+        raise Untranslatable("operator<<(LogStream&, const Fmt&): %d" % len(fo))
+    ap = [c for c in walk(fo[0]) if c.get("kind") == "CXXMemberCallExpr" and mentions(kids(c)[0], member="append")]
+    oks.append(len(ap) == 1 and mentions(kids(ap[0])[1], member="data") and mentions(kids(ap[0])[2], member="length"))
+    res["str_ok"] = all(bool(x) for x in oks)
+    # Fmt: char buf_[N]; Fmt(fmt, val): static_assert(is_arithmetic); length_ = snprintf(buf_, sizeof buf_, fmt, val); assert(size_t(length_) < sizeof buf_)
+    size = None
+    for d in cxxast.dump(LS_H, "muduo::Fmt"):
+        for f in walk(d):
+            if f.get("kind") == "FieldDecl" and f.get("name") == "buf_":
+                mm = re.match(r"^char\s*\[(\d+)\]$", (f.get("type") or {}).get("qualType", ""))
+                if mm:
+                    size = int(mm.group(1))
+    if size is None:
+        raise Untranslatable("Fmt::buf_")
+    res["fmt_size"] = size
+    ctors = []
+    for d in cxxast.dump(LS_CC, "muduo::Fmt::Fmt"):
+        for n in walk(d):
+            if n.get("kind") == "CXXConstructorDecl" and any(c.get("kind") == "CompoundStmt" for c in kids(n)) \
+               and not (n.get("type") or {}).get("qualType", "").endswith(", T)"):      # the instantiations, not the pattern
+                ctors.append(n)
+    if not ctors:
+        raise Untranslatable("Fmt::Fmt bodies")
+    good = True
+    src = open(os.path.join(cxxast.REPO, LS_CC)).read()
+    mm = re.search(r"Fmt::Fmt\(const char\* fmt, T val\)\s*\{(.*?)\n\}", src, re.S)
+    body = mm.group(1) if mm else ""
+    res["fmt_static_assert"] = bool(re.search(r"static_assert\(\s*std::is_arithmetic<T>::value\s*==\s*true", body))
+    am = re.search(r"assert\(\s*static_cast<size_t>\(length_\)\s*(<=|<|>|>=|==|!=)\s*sizeof\s*\(?\s*buf_\s*\)?\s*\)", body)
+    res["fmt_assert_op"] = am.group(1) if am else "?"
+    for n in ctors:
+        calls = [c for c in walk(n) if c.get("kind") == "CallExpr" and mentions(kids(c)[0], decl="snprintf")]
+        if len(calls) != 1:
+            good = False
+            continue
+        ca = kids(calls[0])
+        good = good and mentions(ca[1], member="buf_") and mentions(ca[2], member="buf_") and mentions(ca[3], decl="fmt") and mentions(ca[4], decl="val")
+    res["fmt_ctor_ok"] = bool(good)
+    # strerror_tl: return strerror_r(savedErrno, t_errnobuf, sizeof t_errnobuf);  (GNU: the RESULT is the text, in the buffer or static)
+    ms = methods_named(LG_CC, "muduo::strerror_tl")
+    if len(ms) != 1:
+        raise Untranslatable("strerror_tl")
+    sts = kids(cxxast.body(ms[0]))
+    ok = len(sts) == 1 and sts[0].get("kind") == "ReturnStmt"
+    if ok:
+        calls = [c for c in walk(sts[0]) if c.get("kind") == "CallExpr" and mentions(kids(c)[0], decl="strerror_r")]
+        ok = len(calls) == 1
+        if ok:
+            ca = kids(calls[0])
+            ok = (len(ca) == 4 and mentions(ca[1], decl="savedErrno") and mentions(ca[2], decl="t_errnobuf") and mentions(ca[3], decl="t_errnobuf")
+                  and any(x.get("kind") == "UnaryExprOrTypeTraitExpr" for x in walk(ca[3])))
+            ok = ok and "char *" in (calls[0].get("type") or {}).get("qualType", "")
+    res["strerror_ok"] = bool(ok)
+    return res
+
+
 def coq_rung(r):
     bound, info, src = r
     b = "Else" if bound is None else "%s (%d) (%d)" % ("OnInt" if bound[0] == "int" else "OnDouble", bound[1], bound[2])
@@ -408,6 +633,10 @@ DEFAULT = {
             "double": (">=?", "default"), "double_fmt": "%.12g"},
     "time": {"refresh_op": "!=", "time_fmt": list(b"%4d%02d%02d %02d:%02d:%02d"), "zone": (list(b".%06d "), 17, 8),
              "utc": (list(b".%06dZ "), 17, 9), "t_time_size": 64, "errnobuf_size": 512},
+    "tid": {"cacheTid_ok": True, "tid_fmt": list(b"%5d "), "tid_ok": True, "af_steps": ["AfZeroTid", "AfOther", "AfCallTid"], "atfork": True,
+            "tid_string_size": 32, "t_cachedTid": 0, "t_tidStringLength": 6},
+    "ops": {"bool": (list(b"1"), list(b"0")), "char_ok": True, "cstr_ok": True, "null": list(b"(null)"), "str_ok": True, "fmt_size": 32,
+            "fmt_static_assert": True, "fmt_assert_op": "<", "fmt_ctor_ok": True, "strerror_ok": True},
     "gates": {"LOG_TRACE": ("(cfg <=? Logger_TRACE)", "default"), "LOG_DEBUG": ("(cfg <=? Logger_DEBUG)", "default"),
               "LOG_INFO": ("(cfg <=? Logger_INFO)", "default"), "LOG_WARN": ("true", "default"),
               "LOG_ERROR": ("true", "default"), "LOG_FATAL": ("true", "default"),
@@ -427,7 +656,7 @@ def stamp_key():
     import glob, hashlib
     h = hashlib.sha1()
     files = sorted(glob.glob(os.path.join(cxxast.REPO, "muduo/base/*.h"))) + \
-        [os.path.join(cxxast.REPO, f) for f in (LS_CC, LG_CC)] + [os.path.abspath(__file__), cxxast.__file__]
+        [os.path.join(cxxast.REPO, f) for f in (LS_CC, LG_CC, TH_CC, CT_CC)] + [os.path.abspath(__file__), cxxast.__file__]
     for f in files:
         h.update(f.encode())
         try:
@@ -493,6 +722,32 @@ def main():
             "(* Logging.cc: __thread char t_time[..]; __thread char t_errnobuf[..] (strerror_tl's buffer) *)",
             "Definition Logging_t_time_size : Z := (%d)." % lt["t_time_size"],
             "Definition Logging_errnobuf_size : Z := (%d)." % lt["errnobuf_size"]]
+    tt = attempt("CurrentThread tid cache / afterFork", thread_tid) or DEFAULT["tid"]
+    out += ["", "(* CurrentThread.h/.cc, Thread.cc: the per-thread tid cache.  cacheTid(): `if (t_cachedTid == 0) { t_cachedTid = gettid();",
+            "   t_tidStringLength = snprintf(t_tidString, sizeof t_tidString, tid_format, t_cachedTid); }`; tid(): `if (t_cachedTid == 0) cacheTid();",
+            "   return t_cachedTid;`; afterFork() statement by statement; ThreadNameInitializer(): pthread_atfork(NULL, NULL, &afterFork) and the",
+            "   namespace-scope object of that class; initial values *)",
+            "Inductive af_step := AfZeroTid | AfSetTid | AfCallTid | AfCacheTid | AfOther.",
+            "Definition afterFork_steps : list af_step := [%s]." % "; ".join(tt["af_steps"]),
+            "Definition atfork_child_registered : bool := %s." % ("true" if tt["atfork"] else "false"),
+            "Definition tid_format : list byte := %s." % bl(tt["tid_fmt"]),
+            "Definition tid_string_size : Z := (%d)." % tt["tid_string_size"],
+            "Definition cacheTid_shape_ok : bool := %s." % ("true" if tt["cacheTid_ok"] else "false"),
+            "Definition tid_shape_ok : bool := %s." % ("true" if tt["tid_ok"] else "false"),
+            "Definition cachedTid_init : Z := (%d)." % tt["t_cachedTid"],
+            "Definition tidStringLength_init : Z := (%d)." % tt["t_tidStringLength"]]
+    so = attempt("LogStream operators / Fmt / strerror_tl", stream_ops) or DEFAULT["ops"]
+    out += ["", "(* LogStream.h: operator<<(bool) appends one of two literals; operator<<(const char* ) appends the string or this literal for NULL;",
+            "   char / string / StringPiece / Buffer / Fmt append their bytes; Fmt: char buf_[..], length_ = snprintf(buf_, sizeof buf_, fmt, val),",
+            "   assert(size_t(length_) < sizeof buf_), static_assert(is_arithmetic); Logging.cc strerror_tl returns strerror_r's result *)",
+            "Definition bool_true_text : list byte := %s." % bl(so["bool"][0]),
+            "Definition bool_false_text : list byte := %s." % bl(so["bool"][1]),
+            "Definition null_text_gen : list byte := %s." % bl(so["null"]),
+            "Definition append_ops_shape_ok : bool := %s." % ("true" if (so["char_ok"] and so["cstr_ok"] and so["str_ok"]) else "false"),
+            "Definition Fmt_buf_size : Z := (%d)." % so["fmt_size"],
+            "Definition Fmt_length_assert_is_lt : bool := %s." % ("true" if so["fmt_assert_op"] == "<" else "false"),
+            "Definition Fmt_shape_ok : bool := %s." % ("true" if (so["fmt_static_assert"] and so["fmt_ctor_ok"]) else "false"),
+            "Definition strerror_tl_shape_ok : bool := %s." % ("true" if so["strerror_ok"] else "false")]
     out += ["", "(* one rung: (the test, what is printed).  OnInt: `s < num/den` on the integer; OnDouble: `double(s) < num/den`",
             "   (num/den = exact value of the folded double constant); Else = final else *)",
             "Inductive rung_test := OnInt (num den : Z) | OnDouble (num den : Z) | Else.",
